@@ -16,6 +16,7 @@ EXPLANATION = (
     "ARMS (--dfa passes the ARRAY_START of the module of the selected shell), LABEL (regex dump: every arm of the node match writes a labelled node line for the node before any return; dfa dump: every arm of the transition match writes an edge), "
     "TC (regex dump recurses into every child of Cat/Or; the Star drop is tabled), BAL (braces written by each dumper are balanced outside quoted strings). "
     "NOT decided: one node per state / one edge per transition as value-level facts; Graphviz's layout engines; HTML-like labels (none are emitted)."
+    " INTERN-EQ field clause (shared with C09): one cluster per within-word automaton only if equality looks at every part, accepting states included."
 )
 ASSUMPTIONS = [
     "vlib/xducer.py dec_dot_q transcribes Graphviz's scanner for double-quoted strings (only \\\" and \\\\ are consumed as pairs; a bare quote closes the string)",
